@@ -305,7 +305,7 @@ class C11(Property):
     # ------------------------------------------------------------------ case generation
     def cases(self, rng: random.Random, tier: str, deep: bool) -> Iterator[Dict[str, Any]]:
         scale = 6 if deep else 1
-        plan = [("hmmresult", 1500), ("nrpspks", 600), ("hmmdet", 350), ("sideload", 1500), ("hmmer", 1500),
+        plan = [("hmmresult", 1000), ("nrpspks", 500), ("hmmdet", 350), ("sideload", 1000), ("hmmer", 1200),
                 ("tta", 600), ("resfile", 500), ("sideopt", 700), ("runmod", 24)]
         for kind, n in plan:
             if kind == "runmod":
